@@ -73,8 +73,9 @@ def observer(fn):
 def quiet():
     """Swallow stdout/stderr chatter of the code under test (it print()s warnings and errors)."""
     out, err = sys.stdout, sys.stderr
-    sys.stdout, sys.stderr = io.StringIO(), io.StringIO()
+    cap = io.StringIO()
+    sys.stdout, sys.stderr = cap, io.StringIO()
     try:
-        yield
+        yield cap
     finally:
         sys.stdout, sys.stderr = out, err
